@@ -38,8 +38,10 @@ def main() -> int:
         for pid in a.props.split(","):
             p = subprocess.run(["/venv/bin/python", "-m", "lvf.check", pid, "--tier", a.tier], cwd="/verif", env=env,
                                capture_output=True, text=True)
-            lines = [ln for ln in p.stdout.replace("\r", "\n").splitlines() if ln.startswith("VIOLATION") or ln.strip().startswith("key=")
-                     or "MACHINERY" in ln]
+            import re
+            clean = re.sub(r"\x1b\[[0-9;?]*[A-Za-z]", "", p.stdout.replace("\r", "\n"))
+            lines = [ln[ln.index("VIOLATION"):] if "VIOLATION property=" in ln else ln for ln in clean.splitlines()
+                     if "VIOLATION property=" in ln or ln.strip().startswith("key=") or "MACHINERY" in ln]
             verdict = {0: "MISSED", 1: "DETECTED", 2: "ERROR"}.get(p.returncode, f"rc={p.returncode}")
             print(f"{pid}: {verdict}")
             for ln in lines[:4]:
